@@ -184,6 +184,7 @@ func (c *pcCtx) assignTo(lhs ast.Expr, v string, pre *[]string) {
 		c.assignTo(x.X, "{ "+base+" with "+fld+" := "+v+" }", pre)
 		return
 	case *ast.IndexExpr:
+		c.refuseMapAlias(x)
 		a := pcP(c.atom(x.X, pre))
 		i := pcP(c.atom(x.Index, pre))
 		lt := c.typ(c.info.TypeOf(x.X))
@@ -202,6 +203,74 @@ func (c *pcCtx) assignTo(lhs ast.Expr, v string, pre *[]string) {
 		return
 	}
 	pgFail("assignment to %s is outside the subset", norm(lhs))
+}
+
+// Maps are VALUES here: `m[k] = v` rebinds the variable m (and, for a path `a.f[k1][k2] = v`, every map on the path).  A local
+// variable that holds a map it did not make itself — `inner := outer[k]`, `inner, ok := outer[k]`, a field, a call result — is
+// in Go an ALIAS of that other map: a write through it would be lost at value level.  Such a write is refused.
+func (c *pcCtx) refuseMapAlias(x *ast.IndexExpr) {
+	if _, isMap := c.info.TypeOf(x.X).Underlying().(*types.Map); !isMap {
+		return
+	}
+	id, ok := x.X.(*ast.Ident)
+	if !ok {
+		return
+	}
+	v, ok := pgLocal(c.info.Uses[id])
+	if !ok {
+		return
+	}
+	fresh := func(e ast.Expr) bool {
+		switch r := e.(type) {
+		case *ast.CallExpr:
+			if f, ok := r.Fun.(*ast.Ident); ok {
+				if b, ok := c.info.Uses[f].(*types.Builtin); ok && b.Name() == "make" {
+					return true
+				}
+			}
+		case *ast.CompositeLit:
+			return true
+		}
+		return c.info.Types[e].IsNil()
+	}
+	bad := ""
+	var scope ast.Node = c.fn.body
+	if c.fn.lit != nil {
+		scope = c.fn.decl.Body
+	}
+	if c.helperBody != nil {
+		scope = c.helperBody
+	}
+	ast.Inspect(scope, func(m ast.Node) bool {
+		switch s := m.(type) {
+		case *ast.AssignStmt:
+			for i, l := range s.Lhs {
+				lid, ok := l.(*ast.Ident)
+				if !ok || (c.info.Defs[lid] != v && c.info.Uses[lid] != v) {
+					continue
+				}
+				if len(s.Rhs) != len(s.Lhs) || !fresh(s.Rhs[i]) {
+					bad = norm(s)
+				}
+			}
+		case *ast.ValueSpec:
+			for i, lid := range s.Names {
+				if c.info.Defs[lid] == v && len(s.Values) == len(s.Names) && !fresh(s.Values[i]) {
+					bad = norm(s)
+				}
+			}
+		case *ast.RangeStmt:
+			for _, l := range []ast.Expr{s.Key, s.Value} {
+				if lid, ok := l.(*ast.Ident); ok && (c.info.Defs[lid] == v || c.info.Uses[lid] == v) {
+					bad = "range " + norm(s.X)
+				}
+			}
+		}
+		return true
+	})
+	if bad != "" {
+		pgFail("write into the map %s, which may alias another map (`%s`): map aliasing is not modelled at value level", id.Name, bad)
+	}
 }
 
 func (c *pcCtx) assign(lhs ast.Expr, rhs ast.Expr, op token.Token, define bool, k pgNode) pgNode {
@@ -382,6 +451,9 @@ func (c *pcCtx) stmt(s ast.Stmt, k pgNode) pgNode {
 	case *ast.BlockStmt:
 		return c.stmts(x.List, k)
 	case *ast.ReturnStmt:
+		if c.helperK != nil && len(x.Results) == 1 { // a `return` of a helper translated in continuation style
+			return c.helperK(c, x.Results[0])
+		}
 		var pre, vals []string
 		if call, ok := x.Results[0:min(1, len(x.Results))], true; ok && c.g.tree != nil && len(x.Results) == 1 && c.resT != nil && c.resT.Len() > 1 {
 			// `return f(…)` with several results
@@ -524,6 +596,9 @@ func (c *pcCtx) stmt(s ast.Stmt, k pgNode) pgNode {
 	case *ast.IfStmt:
 		if j := c.joinIf(x, k); j != nil {
 			return j
+		}
+		if n := c.inlineCond(x, k); n != nil {
+			return n
 		}
 		var pre []string
 		var cond string
@@ -806,7 +881,7 @@ func (c *pcCtx) rangeLoop(x *ast.RangeStmt, k pgNode) pgNode {
 		again = &pgLet{"let " + cnt + " : Int := (" + cnt + " + 1)", again}
 	}
 	done := &pgTerm{doneCode}
-	sub.loops = append(append([]pgLoopK{}, c.loops...), pgLoopK{done, again})
+	sub.loops = append(append([]pgLoopK{}, c.loops...), pgLoopK{done, again, ""})
 	sub.inSwch = 0
 	body := sub.stmts(x.Body.List, again)
 	var lines []string
